@@ -46,6 +46,7 @@ type gen struct {
 	// available out-port streams
 	avail   []availStream
 	origins int
+	same    bool // two sources share base names
 }
 
 type availStream struct {
@@ -97,7 +98,7 @@ func (g *gen) dirPrefix() string {
 	if g.p.Subdirs {
 		opts = append(opts, "out/", "d1/d2/")
 	}
-	if g.p.ParentAbs {
+	if g.p.ParentAbs && !g.same {
 		opts = append(opts, "../ext/", "/abs/")
 	}
 	return opts[g.n(len(opts))]
@@ -134,8 +135,16 @@ func Generate(t *simrt.Tape, prof Profile) *WF {
 		if g.p.Subdirs && g.n(2) == 1 {
 			dir = "data/"
 		}
+		// second source with the SAME base names in another directory: tasks
+		// that differ only in the directory of an input must still be told apart
+		sameNames := s == 1 && g.p.Subdirs && g.n(3) == 1
 		for i := 0; i < L; i++ {
 			p := fmt.Sprintf("%ss%d_%d.txt", dir, s, i)
+			if sameNames {
+				p = fmt.Sprintf("alt/%s", baseName(w.Nodes[0].Files[i]))
+				g.same = true
+				g.p.Extras = false // extra-file names are derived from base names: they would clash
+			}
 			node.Files = append(node.Files, p)
 			w.Sources[p] = fmt.Sprintf("source %d %d\n", s, i)
 		}
@@ -331,7 +340,7 @@ func (g *gen) addProc(j int, sinkless *bool) {
 		pat := ""
 		for i, pp := range patParts {
 			if i == 0 {
-				if prefix != "" && pp == "{i:a}" {
+				if prefix != "" && pp == "{i:a}" && !g.same {
 					pp = "{i:a|basename}"
 				}
 				pat = prefix + pp
@@ -356,6 +365,9 @@ func (g *gen) addProc(j int, sinkless *bool) {
 	}
 	if p.Extras && node.Custom == 0 && !(len(node.Ins) > 0 && node.Ins[0].Join) && g.n(3) == 1 {
 		node.Extras = []string{fmt.Sprintf("extra_%s_%s.log", name, "{i:a|basename}")}
+		if g.n(2) == 1 {
+			node.Extras = append(node.Extras, fmt.Sprintf("xdir/more_%s_%s.dat", name, "{i:a|basename}"))
+		}
 		if len(node.Ins) == 0 {
 			node.Extras = nil
 		}
